@@ -6,7 +6,7 @@
 
 use crate::rng::fnv64;
 use std::io::{Read, Write};
-use std::os::unix::process::{CommandExt, ExitStatusExt};
+use std::os::unix::process::CommandExt;
 use std::path::PathBuf;
 use std::process::{Command, Stdio};
 use std::sync::atomic::{AtomicU64, Ordering};
@@ -82,6 +82,8 @@ pub enum Stdout {
     Full,
     /// a pipe whose read end is already closed: every write fails with EPIPE
     ClosedPipe,
+    /// a pseudo-terminal: isatty(stdout) is true for the child; output is captured from the master side
+    Pty,
 }
 
 #[derive(Clone, Debug)]
@@ -94,11 +96,15 @@ pub struct Invocation {
     pub entropy_seed: Option<u64>,
     /// LD_PRELOAD fault plan (family B5)
     pub fault_plan: Option<String>,
+    /// wall-clock limit for the child
+    pub timeout_s: u64,
+    /// sample the child's VmHWM while it runs
+    pub sample_rss: bool,
 }
 
 impl Invocation {
     pub fn new(args: &[&str]) -> Invocation {
-        Invocation { args: args.iter().map(|a| a.as_bytes().to_vec()).collect(), env: vec![], stdin: Stdin::Null, stdout: Stdout::Capture, entropy_seed: Some(1), fault_plan: None }
+        Invocation { args: args.iter().map(|a| a.as_bytes().to_vec()).collect(), env: vec![], stdin: Stdin::Null, stdout: Stdout::Capture, entropy_seed: Some(1), fault_plan: None, timeout_s: 60, sample_rss: false }
     }
     pub fn env(mut self, k: &str, v: &str) -> Self {
         self.env.push((k.to_string(), v.to_string()));
@@ -120,6 +126,10 @@ pub struct Finished {
     pub stdout: Vec<u8>,
     pub stderr: Vec<u8>,
     pub shim_log: Vec<u8>,
+    /// peak resident set size of the child's own (post-exec) address space in KiB, sampled from
+    /// /proc/<pid>/status VmHWM while it runs (only when Invocation::sample_rss); 0 if unknown.
+    /// wait4's ru_maxrss is useless here: it includes the forked copy of the simulator before exec.
+    pub max_rss_kib: i64,
 }
 
 impl Finished {
@@ -178,13 +188,14 @@ pub fn run(sb: &Sandbox, inv: &Invocation) -> Finished {
             Ok(f) => {
                 cmd.stdin(Stdio::from(f));
             }
-            Err(e) => return Finished { status: Status::SpawnError(format!("stdin file: {}", e)), stdout: vec![], stderr: vec![], shim_log: vec![] },
+            Err(e) => return Finished { status: Status::SpawnError(format!("stdin file: {}", e)), stdout: vec![], stderr: vec![], shim_log: vec![], max_rss_kib: 0 },
         },
         Stdin::Pipe(_) => {
             cmd.stdin(Stdio::piped());
         }
     }
     let mut closed_pipe_keep: Option<std::fs::File> = None;
+    let mut pty_master: Option<std::fs::File> = None;
     match &inv.stdout {
         Stdout::Capture => {
             cmd.stdout(Stdio::piped());
@@ -196,6 +207,19 @@ pub fn run(sb: &Sandbox, inv: &Invocation) -> Finished {
         Stdout::Full => {
             let f = std::fs::OpenOptions::new().write(true).open("/dev/full").expect("/dev/full");
             cmd.stdout(Stdio::from(f));
+        }
+        Stdout::Pty => {
+            use std::os::unix::io::FromRawFd;
+            let (mut m, mut sl) = (0i32, 0i32);
+            let rc = unsafe { libc::openpty(&mut m, &mut sl, std::ptr::null_mut(), std::ptr::null_mut(), std::ptr::null_mut()) };
+            if rc != 0 {
+                return Finished { status: Status::SpawnError("openpty failed".into()), stdout: vec![], stderr: vec![], shim_log: vec![], max_rss_kib: 0 };
+            }
+            unsafe {
+                libc::fcntl(m, libc::F_SETFD, libc::FD_CLOEXEC);
+            }
+            pty_master = Some(unsafe { std::fs::File::from_raw_fd(m) });
+            cmd.stdout(Stdio::from(unsafe { std::fs::File::from_raw_fd(sl) }));
         }
         Stdout::ClosedPipe => {
             let mut fds = [0i32; 2];
@@ -219,7 +243,7 @@ pub fn run(sb: &Sandbox, inv: &Invocation) -> Finished {
     }
     let mut child = match cmd.spawn() {
         Ok(c) => c,
-        Err(e) => return Finished { status: Status::SpawnError(e.to_string()), stdout: vec![], stderr: vec![], shim_log: vec![] },
+        Err(e) => return Finished { status: Status::SpawnError(e.to_string()), stdout: vec![], stderr: vec![], shim_log: vec![], max_rss_kib: 0 },
     };
     drop(closed_pipe_keep);
     if let Stdin::Pipe(data) = &inv.stdin {
@@ -230,46 +254,97 @@ pub fn run(sb: &Sandbox, inv: &Invocation) -> Finished {
     // drain stdout/stderr on helper threads (pipes are small), wait with a deadline
     let so = child.stdout.take();
     let se = child.stderr.take();
+    // the Command still holds the slave side of a pty: drop it so that the master sees EOF (EIO)
+    // when the child exits
+    drop(cmd);
     let t_out = std::thread::spawn(move || {
         let mut v = vec![];
         if let Some(mut s) = so {
-            let _ = s.read_to_end(&mut v);
+            read_capped(&mut s, &mut v);
+        }
+        if let Some(mut m) = pty_master {
+            let mut buf = [0u8; 4096];
+            loop {
+                match m.read(&mut buf) {
+                    Ok(0) | Err(_) => break,
+                    Ok(n) => v.extend_from_slice(&buf[..n]),
+                }
+            }
+            // a terminal translates \n to \r\n on output
+            v = String::from_utf8_lossy(&v).replace("\r\n", "\n").into_bytes();
         }
         v
     });
     let t_err = std::thread::spawn(move || {
         let mut v = vec![];
         if let Some(mut s) = se {
-            let _ = s.read_to_end(&mut v);
+            read_capped(&mut s, &mut v);
         }
         v
     });
-    let deadline = std::time::Instant::now() + std::time::Duration::from_secs(60);
+    let deadline = std::time::Instant::now() + std::time::Duration::from_secs(inv.timeout_s);
+    let pid = child.id() as i32;
+    let mut max_rss_kib = 0i64;
+    // wait4 instead of Child::try_wait: it also returns the child's resource usage
     let status = loop {
-        match child.try_wait() {
-            Ok(Some(st)) => {
-                break if let Some(c) = st.code() {
-                    Status::Exit(c)
-                } else {
-                    Status::Signal(st.signal().unwrap_or(-1))
+        let mut st: i32 = 0;
+        let mut ru: libc::rusage = unsafe { std::mem::zeroed() };
+        if inv.sample_rss {
+            if let Ok(t) = std::fs::read_to_string(format!("/proc/{}/status", pid)) {
+                if let Some(l) = t.lines().find(|l| l.starts_with("VmHWM:")) {
+                    if let Some(k) = l.split_whitespace().nth(1).and_then(|x| x.parse::<i64>().ok()) {
+                        max_rss_kib = max_rss_kib.max(k);
+                    }
                 }
             }
-            Ok(None) => {
-                if std::time::Instant::now() > deadline {
-                    let _ = child.kill();
-                    let _ = child.wait();
-                    break Status::Timeout;
+        }
+        let r = unsafe { libc::wait4(pid, &mut st, libc::WNOHANG, &mut ru) };
+        if r == pid {
+            break if libc::WIFEXITED(st) {
+                Status::Exit(libc::WEXITSTATUS(st))
+            } else if libc::WIFSIGNALED(st) {
+                Status::Signal(libc::WTERMSIG(st))
+            } else {
+                Status::Signal(-1)
+            };
+        } else if r == 0 {
+            if std::time::Instant::now() > deadline {
+                unsafe {
+                    libc::kill(pid, libc::SIGKILL);
+                    libc::waitpid(pid, &mut st, 0);
                 }
-                std::thread::sleep(std::time::Duration::from_micros(300));
+                break Status::Timeout;
             }
-            Err(e) => break Status::SpawnError(e.to_string()),
+            std::thread::sleep(std::time::Duration::from_micros(if inv.sample_rss { 1500 } else { 300 }));
+        } else {
+            break Status::SpawnError(format!("wait4: {}", std::io::Error::last_os_error()));
         }
     };
+    // the child has been reaped here; do not let Child try again
+    std::mem::forget(child);
     let stdout = t_out.join().unwrap_or_default();
     let stderr = t_err.join().unwrap_or_default();
     let shim_log = std::fs::read(&shim_log_path).unwrap_or_default();
     let _ = std::fs::remove_file(&shim_log_path);
-    Finished { status, stdout, stderr, shim_log }
+    Finished { status, stdout, stderr, shim_log, max_rss_kib }
+}
+
+/// Read a child's output to its end but keep at most 64 MiB of it (a child that prints in an endless
+/// loop must neither block on a full pipe nor exhaust the simulator's memory before its deadline).
+fn read_capped(src: &mut dyn Read, v: &mut Vec<u8>) {
+    const CAP: usize = 64 << 20;
+    let mut buf = [0u8; 65536];
+    loop {
+        match src.read(&mut buf) {
+            Ok(0) | Err(_) => break,
+            Ok(n) => {
+                if v.len() < CAP {
+                    let k = n.min(CAP - v.len());
+                    v.extend_from_slice(&buf[..k]);
+                }
+            }
+        }
+    }
 }
 
 /// A keyring text written by the harness (reference lock), entries in the given order.
